@@ -687,7 +687,8 @@ def to_bool(v):
     if isinstance(v, (bool, np.bool_)):
         return sp.true if v else sp.false
     if isinstance(v, sp.Basic):
-        if isinstance(v, (sp.logic.boolalg.Boolean, sp.core.relational.Relational, _BoolSym)):
+        if isinstance(v, (sp.logic.boolalg.BooleanFunction, sp.logic.boolalg.BooleanAtom,
+                          sp.core.relational.Relational, _BoolSym)):
             return v
         return sp.Ne(v, 0)
     if isinstance(v, Sym):
